@@ -57,13 +57,13 @@ struct SIMDVector<std::complex<T>, simd_abi::scalar> {
         data[0] = scalar_value_type(value_r,value_i);
     }
 
-    FASTOR_INLINE void mask_load(const scalar_value_type *data, uint8_t mask, bool ) {
+    FASTOR_INLINE void mask_load(const scalar_value_type *data, uint8_t mask, bool = false) {
         if (mask != 0x0) {
             value_r = (*data).real();
             value_i = (*data).imag();
         }
     }
-    FASTOR_INLINE void mask_store(scalar_value_type *data, uint8_t mask, bool) const {
+    FASTOR_INLINE void mask_store(scalar_value_type *data, uint8_t mask, bool = false) const {
         if (mask != 0x0) {
             data[0] = scalar_value_type(value_r,value_i);
         }
